@@ -27,9 +27,10 @@ KNOWN = {'sa-version-path-underestimated-symbol-count':
          'bits than the symbol holds and is silently cut; the count returned equals the defective estimate restated in the check'}
 CHUNK = 1
 
-FAMILIES = ('digits', 'alnum', 'latin', 'bytes', 'kanji', 'mixed', 'int', 'utf8')
+FAMILIES = ('digits', 'alnum', 'latin', 'bytes', 'kanji', 'mixed', 'int', 'utf8', 'sjisbyte', 'hanzi')
 FAM_MODE = {'digits': 'numeric', 'alnum': 'alphanumeric', 'latin': 'byte', 'bytes': 'byte', 'kanji': 'kanji', 'mixed': 'byte', 'int': 'numeric',
-            'utf8': 'byte'}
+            'utf8': 'byte', 'sjisbyte': 'byte', 'hanzi': 'hanzi'}
+FAM_KW = {'hanzi': {'mode': 'hanzi'}}
 
 
 def content_of(fam, n):
@@ -49,6 +50,11 @@ def content_of(fam, n):
         return int('7' + C.content_of('numeric', n - 1, 1)) if n > 1 else 7
     if fam == 'utf8':
         return '€' * n
+    if fam == 'sjisbyte':
+        # byte mode in Shift JIS (not ISO-8859-1 encodable): single-byte katakana / ASCII mixed with double-byte characters
+        return ('\uff71Q\u70b9R=' * n)[:n]
+    if fam == 'hanzi':
+        return C.content_of('hanzi', n, 0)
     raise ValueError(fam)
 
 
@@ -99,9 +105,11 @@ def gen_cases(tier):
 
 
 def check_seq(content, kw, acc, fam):
+    if fam in FAM_KW:
+        kw = dict(kw, **FAM_KW[fam])
     case = ('one', fam, content if not isinstance(content, int) else ('int', str(content)), kw)
     try:
-        exp, enc = Mo.expected_bytes(content, None, kw.get('encoding'))
+        exp, enc = Mo.expected_bytes(content, kw.get('mode'), kw.get('encoding'))
     except UnicodeError:
         exp = None
     try:
@@ -114,7 +122,7 @@ def check_seq(content, kw, acc, fam):
         sc = kw.get('symbol_count')
         if sc is not None and kw.get('version') is None and 1 <= sc <= 16 and exp is not None and fam in FAM_MODE:
             mode = FAM_MODE[fam]
-            units = len(exp) // (2 if mode == 'kanji' else 1)
+            units = len(exp) // (2 if mode in ('kanji', 'hanzi') else 1)
             lvl = kw.get('error') or 'L'
             if units >= sc and -(-units // sc) <= C.max_count('byte', 40, lvl, extra_bits=20) // 2:
                 acc.violation('refused-feasible/symbol_count', 'make_sequence(<%s, %d characters>, **%r) refused (%s) although the message can be '
@@ -164,7 +172,7 @@ def check_seq(content, kw, acc, fam):
             viol.append(('sa-header', 'single symbol with header %r' % (rep.sa,), None))
         # the mode of a homogeneous message is the most compact one (C07) in every symbol, and with boost_error=False the level
         # is exactly the requested one (C05)
-        if fam in FAM_MODE and kw.get('mode') is None and kw.get('encoding') is None and rep.segments and any(sg.mode != FAM_MODE[fam] for sg in rep.segments):
+        if fam in FAM_MODE and kw.get('mode') in (None, 'hanzi') and kw.get('encoding') is None and rep.segments and any(sg.mode != FAM_MODE[fam] for sg in rep.segments):
             viol.append(('mode', 'symbol %d uses mode(s) %r for a %s message' % (i, sorted({sg.mode for sg in rep.segments}), FAM_MODE[fam]), None))
         if kw.get('boost_error', True) is False and qr.error != (kw.get('error') or 'L'):
             viol.append(('level', 'symbol %d has level %r although %r was requested with boost_error=False' % (i, qr.error, kw.get('error') or 'L'), None))
@@ -195,7 +203,7 @@ def check_seq(content, kw, acc, fam):
             good = len(pieces) == n
             any_over = False
             for (got, was_cut), ch, q in zip(pieces, chunks, seq):
-                need = 20 + 4 + T.cci_bits(mode, v) + T.payload_bits(mode, len(ch) // cs)
+                need = 20 + 4 + (4 if mode == 'hanzi' else 0) + T.cci_bits(mode, v) + T.payload_bits(mode, len(ch) // cs)
                 if need > T.data_bits(v, lvl):
                     any_over = True
                     good = good and was_cut and q.error == lvl and ch.startswith(got) and len(ch) > len(got) >= (fit - 3) * cs
